@@ -697,7 +697,7 @@ func main() {
 			}
 		}
 	}
-	nSmall := o.Count(160, len(smalls))
+	nSmall := o.Count(90, len(smalls))
 	perm := rng.Fork("small").Perm(len(smalls))
 	for i := 0; i < nSmall && i < len(smalls); i++ {
 		s := smalls[perm[i]]
@@ -719,7 +719,7 @@ func main() {
 	}
 
 	// --- random: mostly valid share sets, plus a malformed stream
-	nRand := o.Count(120, 1500)
+	nRand := o.Count(70, 1500)
 	for i := 0; i < nRand; i++ {
 		r := rng.Fork(fmt.Sprintf("rand%d", i))
 		n := r.Range(2, 12)
@@ -747,7 +747,7 @@ func main() {
 		fn := []string{"sig", "pub"}[r.Intn(2)]
 		runRec(genRec(r, fn, n, t, k, r.Intn(4), fault), em, fmt.Sprintf("rand-%d", i))
 	}
-	nEnt := o.Count(40, 400)
+	nEnt := o.Count(25, 400)
 	for i := 0; i < nEnt; i++ {
 		r := rng.Fork(fmt.Sprintf("ent%d", i))
 		n := r.Range(2, 9)
